@@ -88,7 +88,14 @@ func tensorFaults(tp0 *onnx.TensorProto) []tensorFault {
 		fs = append(fs, tensorFault{"last dim dropped", func(tp *onnx.TensorProto) { tp.Dims = tp.Dims[:len(tp.Dims)-1] }})
 		fs = append(fs, tensorFault{"dims dropped", func(tp *onnx.TensorProto) { tp.Dims = nil }})
 	}
-	for code := int32(0); code <= 20; code++ {
+	fs = append(fs,
+		tensorFault{"stray external_data entries (data_location DEFAULT)", func(tp *onnx.TensorProto) {
+			tp.ExternalData = []*onnx.StringStringEntryProto{{Key: "location", Value: "weights.bin"}, {Key: "offset", Value: "0"}, {Key: "length", Value: "4096"}}
+		}},
+		tensorFault{"doc_string set", func(tp *onnx.TensorProto) { tp.DocString = "inlined from weights.bin" }},
+		tensorFault{"data_location EXTERNAL with inline payload", func(tp *onnx.TensorProto) { tp.DataLocation = onnx.TensorProto_EXTERNAL }},
+	)
+	for code := int32(-2); code <= 22; code++ {
 		code := code
 		if code == tp0.DataType {
 			continue
@@ -356,6 +363,16 @@ func (g *gen) families12() {
 				}
 			}
 		}
+	}
+	// damaged archives: the entry's payload no longer matches its checksum; a loader that does not notice hands out
+	// weights nobody published
+	for bi, b := range weightOnly {
+		if bi%3 == 0 {
+			g.zipFamily(b)
+		}
+	}
+	for _, b := range genBases() {
+		g.zipFamily(b)
 	}
 	// W. seeded multi-fault search and torn v1->v2 weight updates until the budget is used
 	g.random12(weightOnly)
